@@ -270,6 +270,10 @@ class Ctx:
         return True
 
     def finish(self, level="proof", explanation=None):
+        if self.coq_failed and not self.violations:
+            # safety net: a proof obligation that no longer checks is always reported, whatever the property module did
+            self.violation("proof-broken", "theorems no longer check: %s" % ", ".join(self.coq_failed),
+                           {"theorem_or_correspondence": self.coq_failed}, no_input=True)
         wall = time.time() - self.t0
         cov = dict(self.cov)
         LEVELS = ("exploration", "fault_enumeration", "model_checking", "proof", "translation_validation", "other")
